@@ -117,7 +117,8 @@ pub proof fn lemma_split_two(w: Seq<u8>, n: nat)
     }
 }
 
-/// [C03 C15] an accepting verdict pins the shape of the line: `PROXY`, a separator, the protocol
+// [props: C03 C15]
+/// an accepting verdict pins the shape of the line: `PROXY`, a separator, the protocol
 /// keyword, a separator, ..., CRLF, at most 107 bytes
 pub broadcast proof fn lemma_accept_shape(w: Seq<u8>)
     ensures (#[trigger] line_verdict(w)) matches V1V::Accept(a) ==> v1_accept_shape(w, a)
@@ -155,7 +156,8 @@ pub broadcast proof fn lemma_accept_shape(w: Seq<u8>)
     }
 }
 
-/// [C15] for a window (CR only as its last-but-one byte) the separators inside the line are spaces
+// [props: C15]
+/// for a window (CR only as its last-but-one byte) the separators inside the line are spaces
 pub proof fn lemma_window_separators(w: Seq<u8>, i: int)
     requires first_index_of(w, 13u8) + 2 == w.len(), 0 <= i < w.len() - 2, is_sep(w[i])
     ensures w[i] == 32u8
